@@ -48,6 +48,13 @@ def make_spec(stream, rng, edge_index=None):
         pairing = {"contended": None, "dynamic": "dynamic", "batch": "batch", "overlap": None,
                    "dynamic-reuse": "dynamic"}[stream]
         spec = simgen.gen_spec(rng, pairing=pairing)
+        if stream == "batch" and rng.random() < 0.3:
+            # observation names with underscores, one a prefix of the other
+            ren = dict(zip(["a", "b", "c", "d"], ["emu", "emu_b", "emu_b_2", "dingo_x"]))
+            for o in spec["observations"]:
+                o["name"] = ren[o["name"]]
+            if spec["scheduling"].get("split"):
+                spec["scheduling"]["split"] = {ren.get(k, k): v for k, v in spec["scheduling"]["split"].items()}
         if stream == "batch" and rng.random() < 0.35:
             # observations of 1-2 steps: the reservation is made in the step the ingest machines come back
             for o in spec["observations"]:
@@ -235,7 +242,7 @@ def make_spec(stream, rng, edge_index=None):
         spec["delay"] = None
         obs = spec["observations"]
         kinds = ["threshold", "handover", "threshold2", "hotfit", "coldfit", "machines", "ingestlimit", "arrays", "rate",
-                 "coldshort", "ingestlimit3", "ratefrac", "emptywf"]
+                 "coldshort", "ingestlimit3", "ratefrac", "emptywf", "stalecheck", "hugecap"]
         which = kinds[edge_index % len(kinds)] if edge_index is not None else rng.choice(kinds)
         obs.sort(key=lambda o: o["start"])
         if len(obs) < 2 and which in ("threshold2", "hotfit", "ingestlimit", "arrays", "handover"):
@@ -332,6 +339,28 @@ def make_spec(stream, rng, edge_index=None):
             spec["total_arrays"] = a["demand"] + b["demand"]
         elif which == "rate":
             spec["hot"]["rate"] = max(o["rate"] for o in obs)
+        elif which == "stalecheck":
+            # an observation that fits the hot tier when it falls due but has to wait for ingest machines; while it
+            # waits another one fills the tier: it must be re-checked against the buffer, not admitted on the old answer
+            wf = lambda: simgen.gen_workflow(rng, 3, [m["flops"] for m in spec["machines"]])
+            r = rng.choice([15, 18, 20])
+            d = rng.randint(3, 4)
+            big = dict(obs[0], name="a", start=0, duration=d, demand=1, rate=r, ingest_demand=2, workflow=wf())
+            dump = dict(obs[0], name="b", start=0, duration=1, demand=1, rate=100 - r * d + rng.randint(2, 8),
+                        ingest_demand=1, workflow=wf())
+            spec["observations"] = obs = [big, dump]
+            spec["machines"] = [{"id": "m%d" % i, "flops": 10, "bw": 2} for i in range(2)]
+            nm = 2
+            spec["max_ingest"] = 2
+            spec["total_arrays"] = 2
+            spec["hot"] = {"capacity": 100, "rate": 100}
+            spec["cold"] = {"capacity": 200, "rate": 50}
+            if spec["scheduling"]["kind"] == "batch":
+                spec["scheduling"] = {"kind": "batch", "partitions": 1, "min": 1, "split": None}
+        elif which == "hugecap":
+            # tiers many orders of magnitude larger than what is stored in them (exact integers)
+            spec["hot"]["capacity"] = 4 * 10 ** 12
+            spec["cold"]["capacity"] = 2 * 10 ** 12
         elif which == "emptywf":
             # an observation whose workflow has no task at all (a pure calibration scan): it is queued,
             # "processed" and removed within one step, possibly before the telescope has marked it finished
@@ -372,7 +401,7 @@ def make_spec(stream, rng, edge_index=None):
             spec["observations"] = obs = [x, y] + rest
         for o in obs:
             o["ingest_demand"] = min(o["ingest_demand"], spec["max_ingest"], nm)
-        if which not in ("threshold", "threshold2", "hotfit", "coldfit", "coldshort"):
+        if which not in ("threshold", "threshold2", "hotfit", "coldfit", "coldshort", "stalecheck", "hugecap"):
             tot = sum(o["rate"] * o["duration"] for o in obs)
             spec["hot"]["capacity"] = int(tot / 0.6) + 5
             spec["cold"]["capacity"] = spec["hot"]["capacity"] + 5
